@@ -708,7 +708,7 @@ class BVExec(Interp):
             pa, pb = self.ptr_of(n0['inner'][0], env, depth), self.ptr_of(n0['inner'][1], env, depth)
             if pa is not None and pb is not None and pa.base == pb.base and pa.idx == pb.idx:
                 return const_bv((pa.k - pb.k) & ((1 << 64) - 1), 64, True)
-        if k == 'BinaryOperator' and n0.get('opcode') in ('*', '+', '-') and width_of_type(dtype(n0)):
+        if k == 'BinaryOperator' and n0.get('opcode') in ('*', '+', '-', '%', '/') and width_of_type(dtype(n0)):
             a = self.eval(n0['inner'][0], env, depth)
             b = self.eval(n0['inner'][1], env, depth)
             if bv_const(a) is None or bv_const(b) is None:
@@ -723,7 +723,7 @@ class BVExec(Interp):
                     return a2
                 if op == '*' and (bv_const(a2) == 1):
                     return b2
-                return BV(info[0], u_op({'*': 'mul', '+': 'add', '-': 'sub'}[op], a2.b, b2.b, info[0], commutative=op != '-'), info[1])
+                return BV(info[0], u_op({'*': 'mul', '+': 'add', '-': 'sub', '%': 'mod', '/': 'div'}[op], a2.b, b2.b, info[0], commutative=op in ('*', '+')), info[1])
         if k == 'UnaryOperator' and n0.get('opcode') == '*':
             pa = self.ptr_of(n0['inner'][0], env, depth)
             info = width_of_type(dtype(n0)) or (8, False)
@@ -954,7 +954,7 @@ class BVExec(Interp):
     def step(self, s, env, depth):
         e = strip(s, casts=False)
         k = e.get('kind')
-        if k in ('BinaryOperator', 'CompoundAssignOperator') and e.get('opcode') in ('=', '|=', '&=', '^=', '<<=', '>>=', '+=', '-=', '*='):
+        if k in ('BinaryOperator', 'CompoundAssignOperator') and e.get('opcode') in ('=', '|=', '&=', '^=', '<<=', '>>=', '+=', '-=', '*=', '%=', '/='):
             lhs = strip(e['inner'][0], casts=False)
             if e.get('opcode') == '=':
                 if '*' in (qtype(lhs) or ''):
@@ -1011,6 +1011,11 @@ class BVExec(Interp):
             if fd is not None and (obj is None or is_this(obj)) and depth < self.max_depth:
                 self.call(fd, call_args(e), env, depth + 1)
                 # member state written by the callee lives in tuple keys: copy back
+                return
+        if k == 'CallExpr' and call_name(e) == 'swap' and len(call_args(e)) == 2:
+            ra, rb = ref_decl(call_args(e)[0]), ref_decl(call_args(e)[1])
+            if ra is not None and rb is not None and ra.get('id') in env and rb.get('id') in env:
+                env[ra['id']], env[rb['id']] = env[rb['id']], env[ra['id']]
                 return
         if k == 'CXXOperatorCallExpr' and call_name(e) == 'operator+=' and len(kids(e)) == 3:
             vec, key = self.vec(kids(e)[1], env)
